@@ -1482,6 +1482,8 @@ def _m_isinstance(I, obj, cls):
             return cls in (bool, int, object) or _abc_number(cls)
         if isinstance(obj, SymInt):
             return cls in (int, object) or _abc_number(cls)
+        if isinstance(obj, models.SymByteArray):
+            return cls in (bytearray, object)
         if isinstance(obj, SymBytes):
             return cls in (bytes, object)
         if isinstance(obj, SymFloatBase):
@@ -1510,6 +1512,8 @@ def _m_type(I, *args, **kw):
             return bool
         if isinstance(o, SymInt):
             return int
+        if isinstance(o, models.SymByteArray):
+            return bytearray
         if isinstance(o, SymBytes):
             return bytes
         if isinstance(o, SymFloatBase):
@@ -1600,6 +1604,8 @@ def _m_max(I, *args, **kw):
 def _m_bytes(I, *args, **kw):
     if len(args) == 1 and not kw:
         a = args[0]
+        if isinstance(a, models.SymByteArray):
+            return models.mkbytes(list(a.items))
         if isinstance(a, SymBytes):
             return a
         if isinstance(a, (bytes, bytearray, int, str)):
@@ -1663,6 +1669,18 @@ def _m_unpack(I, fmt, data):
 @model(struct.unpack_from)
 def _m_unpack_from(I, fmt, data, offset=0):
     return models.unpack_from(fmt, data, offset)
+
+
+@model(struct.pack_into)
+def _m_pack_into(I, fmt, buf, offset, *args):
+    return models.pack_into(fmt, buf, offset, *args)
+
+
+@model(bytearray)
+def _m_bytearray(I, *args, **kw):
+    if kw:
+        return bytearray(*args, **kw)
+    return models.make_bytearray(*args)
 
 
 @model(struct.calcsize)
